@@ -100,6 +100,8 @@ type Exec struct {
 	oblFacts      map[int]bool
 	permIdx       map[int]bool
 	curLoopClk    *Term
+	evalTerms     []*Term
+	arrEmbElem    map[string]bool
 	inTypeInv     int
 	ownObjs       map[int]bool
 	invAssumed    map[string]bool
@@ -299,7 +301,7 @@ func (x *Exec) runOnce(tag, caseParam string, caseLen int) {
 	fr.entry = st.clone()
 	x.entryState = fr.entry
 	if rt := x.recvTerm(fr); rt != nil && len(x.prog.Cons.ValidatorTypes) > 0 {
-		x.addFactRaw(x.descT(rt, rt))
+		x.addFactRaw(x.tt.Implies(x.tt.Not(x.tt.Eq(rt, x.tt.IntLit(0))), x.descT(rt, rt)))
 	}
 	// implicit precondition: validator / Result objects passed in are live (not sitting in a pool)
 	for i, p := range fn.Params {
@@ -704,6 +706,7 @@ func (x *Exec) runLoopInv(fr *Frame, L *Loop, ins []edge, spec *LoopSpec) []edge
 		sChildren[k] = append([]*Term{}, v...)
 	}
 	sGlobals := len(x.globals)
+	sPanics := len(fr.panics)
 	savedCounts := map[string]int{}
 	for k, v := range x.oblCount {
 		savedCounts[k] = v
@@ -740,6 +743,7 @@ func (x *Exec) runLoopInv(fr *Frame, L *Loop, ins []edge, spec *LoopSpec) []edge
 	x.truncFacts(savedFacts)
 	x.addrSeen, x.loadedSeen, x.jsonSeen, x.invAssumed, x.childSeen, x.nilMapSeen, x.childrenOf = sAddr, sLoaded, sJSON, sInvA, sChild, sNilMap, sChildren
 	x.globals = x.globals[:sGlobals]
+	fr.panics = fr.panics[:sPanics] // panic exits seen in the dry pass are not real paths
 	x.obls = x.obls[:savedObls]
 	x.oblCount = savedCounts
 	x.notes = savedNotes
@@ -792,6 +796,9 @@ func (x *Exec) runLoopInv(fr *Frame, L *Loop, ins []edge, spec *LoopSpec) []edge
 		}
 		cur := x.heap(st, n, srt)
 		if whole[n] {
+			if x.loopMix(fr, st, n, srt, lname) {
+				continue
+			}
 			st.heaps[n] = tt.Fresh(n+"@"+lname, srt)
 			continue
 		}
@@ -978,12 +985,28 @@ func (x *Exec) finish(fr *Frame) {
 			x.checkFrame(fr, rs.st)
 		}
 	}
-	if len(fr.panics) > 0 && con != nil && len(con.PanicEnsures) > 0 {
-		ps := x.mergeStates(fr.panics)
-		if ps != nil {
+	if len(fr.panics) > 0 {
+		// deferred calls run on the panic paths too (their preconditions and effects are checked there);
+		// one path at a time while there are few of them (a merged panic state is a large case split for the solver)
+		groups := [][]*State{fr.panics}
+		if len(fr.panics) <= 16 && anyDefers(fr.panics) {
+			groups = nil
+			for _, p := range fr.panics {
+				groups = append(groups, []*State{p})
+			}
+		}
+		for _, g := range groups {
+			ps := x.mergeStates(g)
+			if ps == nil {
+				continue
+			}
 			ps = x.runDefers(fr, ps, true)
 			x.curPC = ps.pc
-			for _, c := range con.PanicEnsures {
+			var pens []*Clause
+			if con != nil {
+				pens = con.PanicEnsures
+			}
+			for _, c := range pens {
 				env := x.contractEnv(fr, ps, fr.entry, nil)
 				g := x.evalBool(env, c.Expr)
 				x.oblige(fr, ps, "on_panic-ensures", fmt.Sprintf("%d", c.Ord), c.Tags, g, c.Text)
@@ -1294,4 +1317,13 @@ func (x *Exec) tagIfNonNil(v *Term) (*Term, bool) {
 		}
 	}
 	return nil, false
+}
+
+func anyDefers(ss []*State) bool {
+	for _, s := range ss {
+		if len(s.defers) > 0 {
+			return true
+		}
+	}
+	return false
 }
